@@ -47,6 +47,15 @@ folder, which the machine takes as given (`Folder`); C16/C17 own that phase. -/
 theorem day_loop_reseeds : tables.dayLoopReseeds = true :=
   dayLoopReseeds_of_consumers tables consumers_reseeded
 
+/-- the saved daily seed series is re-used only under all three tests (length, first day, last day) -/
+theorem seed_series_reuse_checked : tables.seedSeriesChecked := by decide
+
+/-- why the three tests suffice: seed series are written as contiguous day ranges `[a, a+n)`; one that has as many
+days as the simulated period `[s, s+n)` and contains its first and last day IS that period, so the day loop's lookup
+`series[day]` is defined for every simulated day (the machine's `Folder.seed` is total) -/
+theorem reused_series_covers_period (a s n : Int) (hs : a ≤ s ∧ s < a + n) (he : a ≤ s + n - 1 ∧ s + n - 1 < a + n) :
+    a = s := by omega
+
 /-- nothing random is lexically reachable from what a task runs before its first re-seed (constructors of the
 program, its methods, sensors, schedules, crews, the output manager, `infra.setup`, the statements of
 `run_simulation` before the loop): discharges the former `dayLoopForm` hypothesis statically -/
